@@ -11,10 +11,12 @@ package main
 // nothing that is fed to the model or used to aim a request comes from the code under test.
 
 import (
+	"crypto/tls"
 	"fmt"
 	"net"
 	"net/url"
 	"strings"
+	"time"
 	"unicode"
 
 	"github.com/caddyserver/certmagic"
@@ -176,3 +178,29 @@ func (o *c15OwnAnswers) check() emit.OracleCheck {
 	}
 	return emit.OracleCheck{Name: fmt.Sprintf("the code's own challengeKey / challengeTokensKey / IssuerKey answers equal the independently computed ones (%d comparisons; recorded only, the cases use the independent values)", o.n), OK: len(o.bad) == 0, Detail: d}
 }
+
+// tlsListener serves TLS handshakes on ln with cfg's GetCertificate (as a server using certmagic
+// does); it returns a function that stops it.
+func tlsListener(ln net.Listener, cfg *certmagic.Config) func() {
+	tc := cfg.TLSConfig()
+	tc.NextProtos = append([]string{"h2", "http/1.1"}, tc.NextProtos...) // as certmagic.TLS does for an HTTPS server
+	done := make(chan struct{})
+	go func() {
+		for {
+			c, err := ln.Accept()
+			if err != nil {
+				close(done)
+				return
+			}
+			go func() {
+				defer c.Close()
+				tconn := tls.Server(c, tc)
+				tconn.SetDeadline(time.Now().Add(10 * time.Second))
+				tconn.Handshake()
+				tconn.Close()
+			}()
+		}
+	}()
+	return func() { ln.Close(); <-done }
+}
+
